@@ -349,8 +349,16 @@ class Plane:
         plane = self.copy()
 
         if plane.amplitude.ndim > 1:
+            # the support of the amplitude is the plane's mask where there is
+            # a mask array (with mask=None rescale would take every sample
+            # that is exactly 0.0 - the node line of a signed amplitude - for
+            # a hole in the aperture and damp its neighbours)
+            support = None
+            if plane._mask.ndim > 1:
+                support = plane._mask if plane._mask.ndim == 2 else np.sum(plane._mask, axis=0)
+                support = (np.asarray(support) != 0).astype(float)
             plane.amplitude = lentil.rescale(plane.amplitude, scale=scale, shape=None,
-                                                mask=None, order=3, mode='nearest',
+                                                mask=support, order=3, mode='nearest',
                                                 unitary=False)/scale
         elif plane._mask.ndim > 1:
             # a constant amplitude over a mask array: the mask covers scale**2
